@@ -14,7 +14,9 @@ def label(path):
     return os.path.basename(os.path.dirname(path)) if path.endswith("patch.diff") else os.path.basename(path)[:-5]
 def screen(path):
     name = label(path)
-    pid = re.match(r"[cC](\d\d)", name).group(0).upper()
+    match = re.match(r"[cC](\d\d)", name)
+    refactoring = match is None  # seeded/refactor-*: behaviour-preserving, every check must stay silent
+    pid = "all" if refactoring else match.group(0).upper()
     scratch = tempfile.mkdtemp(prefix="mutant_%s_" % name)
     out = tempfile.mkdtemp(prefix="mutant_out_%s_" % name)
     try:
@@ -25,6 +27,13 @@ def screen(path):
             return name, pid, "patch does not apply", "-", "-"
         base = subprocess.run([os.path.join(HERE, "tools", "baseline.py"), tree], capture_output=True, text=True).stdout.strip().splitlines()
         env = dict(os.environ, VERIF_REPO=tree, VERIF_OUT=out, VERIF_NO_REPLAY_CHECK="1", VERIF_WORKERS="6")
+        if refactoring:
+            alarms = []
+            for number in range(1, 21):
+                one = subprocess.run([os.path.join(HERE, "check"), "C%02d" % number, "--tier", "quick"], capture_output=True, text=True, env=env, cwd=HERE)
+                if one.returncode != 0:
+                    alarms.append("C%02d exit %d" % (number, one.returncode))
+            return name, pid, base[0] if base else "?", "no alarm (20 checks)" if not alarms else "FALSE ALARM", "; ".join(alarms)[:160]
         done = subprocess.run([os.path.join(HERE, "check"), pid, "--tier", "quick"], capture_output=True, text=True, env=env, cwd=HERE)
         sigs = [l.strip()[4:].split(" cases=")[0] for l in done.stdout.splitlines() if l.strip().startswith("sig=")]
         verdict = {0: "MISSED", 1: "caught", 2: "harness error"}.get(done.returncode, "exit %d" % done.returncode)
